@@ -37,6 +37,7 @@ import SarpyModel.Drivers.NitfDtype
 import SarpyModel.Drivers.Hdr
 import SarpyModel.Drivers.HdrSicd
 import SarpyModel.Drivers.HdrSidd
+import SarpyModel.Drivers.SegHist
 namespace Sarpy.Drivers
 
 def step (line : String) : String :=
@@ -81,6 +82,7 @@ def step (line : String) : String :=
   | "hdr" :: rest => (hdrStep rest).getD "bad-op"
   | "hdrsicd" :: rest => (hdrsicdStep rest).getD "bad-op"
   | "hdrsidd" :: rest => (hdrsiddStep rest).getD "bad-op"
+  | "seghist" :: rest => (seghistStep rest).getD "bad-op"
   | _ => "bad-op"
 
 partial def loop (h : IO.FS.Stream) : IO Unit := do
